@@ -3,7 +3,7 @@
     configuration, the ClientHello's server name, the connection's local IP, what the non-cache
     part contributed; observation: error / certificate (hash, completeness) / empty certificate
     with nil error); 1 = one MatchWildcard call; 2 = one normalizedName call. *)
-From CM Require Import Lib.Str Lib.Wire Gen.Consts Cache.Model Lookup.Model.
+From CM Require Import Lib.Str Lib.Wire Gen.Consts Cache.Model Cache.Check Lookup.Model.
 Open Scope N_scope.
 
 Inductive obs :=
@@ -15,20 +15,24 @@ Record attr := Attr { at_sup : bool; at_valid : bool; at_complete : bool }.
 
 Record lcase := LCase {
   l_cap : nat;
-  l_state : state;
+  l_state : state;                 (* both cache maps before the call *)
   l_attrs : amap attr;
   l_cfg : config;
   l_sni : str;
   l_ip : str;
-  l_env : env;
-  l_loaded_complete : bool;
-  l_obs : obs
+  l_policy : policy;               (* Config.CertSelection: none, or one of the harness doubles *)
+  l_envx : envx;                   (* IDNA form of the server name, storage content, eviction victim *)
+  l_stored_complete : amap bool;   (* per stored certificate (by hash): chain and key present *)
+  l_obs : obs;
+  l_post : state                   (* both cache maps after the call *)
 }.
 
 Inductive case :=
 | KLookup (ltbl : list (N * N)) (stbl : list N) (c : lcase)
 | KMatch (ltbl : list (N * N)) (subject wildcard : str) (o : bool)
-| KNorm (ltbl : list (N * N)) (stbl : list N) (s o : str).
+| KNorm (ltbl : list (N * N)) (stbl : list N) (s o : str)
+| KQual (stbl : list N) (s : str) (o : bool)
+| KName (ltbl : list (N * N)) (stbl : list N) (dflt ip : str) (idna : option str) (o : option str).
 
 Definition attr_get (a : amap attr) (h : hash) : attr :=
   match alookup h a with Some x => x | None => Attr false false false end.
@@ -44,9 +48,12 @@ Section Run.
   Variable lower : N -> N.
   Variable is_space : N -> bool.
 
-  Definition run_lookup (c : lcase) : result :=
-    lookup lower is_space (fun h => at_sup (attr_get (l_attrs c) h)) (fun h => at_valid (attr_get (l_attrs c) h))
-           (l_state c) (l_cap c) (l_cfg c) (l_sni c) (l_ip c) (l_env c).
+  Definition supf (c : lcase) : hash -> bool := fun h => at_sup (attr_get (l_attrs c) h).
+  Definition validf (c : lcase) : hash -> bool := fun h => at_valid (attr_get (l_attrs c) h).
+  Definition self (c : lcase) : state -> name -> option cert := sel_policy (supf c) (validf c) (l_policy c).
+
+  Definition run_lookup (c : lcase) : result * state :=
+    lookup_x lower is_space (self c) (l_state c) (l_cap c) (l_cfg c) (l_sni c) (l_ip c) (l_envx c).
 
   (** the index names tried for a match, in order of preference *)
   Definition match_names (c : lcase) : list name :=
@@ -59,33 +66,91 @@ Section Run.
     mem_str h (idx s m) &&
     match alookup h (cache s) with Some c => mem_str m (c_names c) | None => false end.
 
+  (** the certificate just loaded from storage: only when the cache is almost full, for the name
+      of the ClientHello (which must qualify), found under that name or under the name with its
+      first label replaced by "*", and not due for renewal *)
+  Definition loaded_ok (c : lcase) (h : hash) : bool :=
+    almost_full (l_cap c) (length (cache (l_state c))) &&
+    match hello_name lower is_space (l_cfg c) (l_ip c) (x_idna (l_envx c)) with
+    | Some nm =>
+        subject_qualifies is_space nm &&
+        match load_from_storage (x_storage (l_envx c)) nm with
+        | Some x => sd_fresh x && str_eqb (c_hash (sd_cert x)) h
+        | None => false
+        end
+    | None => false
+    end.
+
+  Definition sel_is (c : lcase) (v : name) (h : hash) : bool :=
+    match self c (l_state c) v with Some x => str_eqb (c_hash x) h | None => false end.
+
+  (** "complete" of the answer as observed must also be what was recorded for that certificate *)
+  Definition known_complete (c : lcase) (h : hash) : bool :=
+    match alookup h (cache (l_state c)) with
+    | Some _ => at_complete (attr_get (l_attrs c) h)
+    | None => match alookup h (l_stored_complete c) with Some b => b | None => false end
+    end.
+
   (** the property, evaluated on an observation *)
-  Definition spec_lookup (c : lcase) : bool :=
+  Definition spec_lookup_o (c : lcase) (o : obs) : bool :=
     let s := l_state c in
     let n := normalize lower is_space (l_sni c) in
-    let good h := at_sup (attr_get (l_attrs c) h) && at_valid (attr_get (l_attrs c) h) in
-    match l_obs c with
-    | OEmpty => false                                         (* never empty with a nil error *)
-    | OErr => match first_listed s (match_names c) with       (* a listed name is never refused *)
-              | Some _ => false | None => true end
-    | OCert h complete =>
-        complete &&
-        match first_listed s (match_names c) with
-        | Some m =>
-            (* exact before wildcard, fewer wildcard labels first; local IP when there is no SNI;
-               among the certificates listed under that name a supported unexpired one *)
-            listed_under s h m && (negb (existsb good (idx s m)) || good h)
-        | None =>
-            (* a certificate that does not cover the name: only the default name's (no SNI), the
-               fallback name's, or the one just loaded from storage when the cache is almost full *)
-            (is_nil n && negb (is_nil (default_name (l_cfg c))) &&
-               listed_under s h (normalize lower is_space (default_name (l_cfg c)))) ||
-            (negb (is_nil (fallback_name (l_cfg c))) &&
-               listed_under s h (normalize lower is_space (fallback_name (l_cfg c)))) ||
-            (almost_full (l_cap c) (length (cache s)) &&
-               match loaded (l_env c) with Some lc => str_eqb (c_hash lc) h | None => false end)
+    let good h := supf c h && validf c h in
+    let dflt := is_nil n && negb (is_nil (default_name (l_cfg c))) in
+    let fb := negb (is_nil (fallback_name (l_cfg c))) in
+    match l_policy c with
+    | PDefault =>
+        match o with
+        | OEmpty => false                                         (* never empty with a nil error *)
+        | OErr => match first_listed s (match_names c) with       (* a listed name is never refused *)
+                  | Some _ => false | None => true end
+        | OCert h complete =>
+            complete && known_complete c h &&
+            match first_listed s (match_names c) with
+            | Some m =>
+                (* exact before wildcard, fewer wildcard labels first; local IP when there is no SNI;
+                   among the certificates listed under that name a supported unexpired one *)
+                listed_under s h m && (negb (existsb good (idx s m)) || good h)
+            | None =>
+                (* a certificate that does not cover the name: only the default name's (no SNI), the
+                   fallback name's, or the one just loaded from storage when the cache is almost full *)
+                (dflt && listed_under s h (normalize lower is_space (default_name (l_cfg c)))) ||
+                (fb && listed_under s h (normalize lower is_space (fallback_name (l_cfg c)))) ||
+                loaded_ok c h
+            end
+        end
+    | _ =>
+        (* a custom selector: the first tried name for which it accepts one of the choices it is
+           offered (the certificates listed under the name, or all cached ones) decides *)
+        match o with
+        | OEmpty => false
+        | OErr => forallb (fun v => match self c s v with Some _ => false | None => true end) (match_names c)
+        | OCert h complete =>
+            complete && known_complete c h &&
+            match first_sel (self c) s (match_names c) with
+            | Some (_, x) => str_eqb (c_hash x) h && amem h (cache s)
+            | None =>
+                (dflt && sel_is c (normalize lower is_space (default_name (l_cfg c))) h && amem h (cache s)) ||
+                (fb && sel_is c (normalize lower is_space (fallback_name (l_cfg c))) h && amem h (cache s)) ||
+                loaded_ok c h
+            end
         end
     end.
+
+  Definition spec_lookup (c : lcase) : bool := spec_lookup_o c (l_obs c).
+
+  (** the cache around the call: the C12 invariant holds before and after, within capacity, and
+      only the almost-full branch touches it *)
+  Definition case_certs (c : lcase) : list cert :=
+    map snd (cache (l_state c)) ++ map (fun kv => sd_cert (snd kv)) (x_storage (l_envx c)).
+  Definition spec_cache_p (c : lcase) (post : state) : bool :=
+    let nm := names_of_pool (case_certs c) in
+    let bn := dedup (flat_map c_names (case_certs c)) in
+    let bh := dedup ([] :: map c_hash (case_certs c)) in
+    let ok st := inv_b nm (l_cap c) (state_names bn st) (state_hashes bh st) st in
+    ok (l_state c) && ok post &&
+    (almost_full (l_cap c) (length (cache (l_state c))) || state_eqb (l_state c) post).
+  Definition spec_cache (c : lcase) : bool := spec_cache_p c (l_post c).
 End Run.
 
 (** MatchWildcard's specification: with lower-cased arguments it is [covers] -- for subjects
@@ -97,13 +162,17 @@ Definition spec_match (lower : N -> N) (subject wildcard : str) (o : bool) : boo
   let w := map lower wildcard in
   if has_empty_label s then true else Bool.eqb o (covers_b w s).
 
+(** SubjectQualifiesForCert's documented rule, with fixed constants (the model evaluates the
+    conjuncts the translator read from the source) *)
+Definition reject_chars : str :=
+  [40; 41; 91; 93; 123; 125; 60; 62; 32; 9; 10; 34; 92; 33; 64; 35; 36; 37; 94; 38; 124; 59; 39; 43; 61].
+Definition qual_spec (is_space : N -> bool) (s : str) : bool :=
+  negb (forallb is_space s) &&
+  negb (has_prefix [46] s) && negb (has_suffix [46] s) &&
+  (negb (existsb (N.eqb 42) s) || has_prefix [42; 46] s || str_eqb s [42]) &&
+  negb (existsb (fun c => existsb (N.eqb c) reject_chars) s).
+
 (** ---- wire ---- *)
-Definition get_cert : dec cert :=
-  (h <- get_str ;; ns <- get_list get_str ;; m <- get_bool ;; i <- get_str ;;
-   t <- get_list get_str ;; o <- get_z ;; a <- get_str ;; ret (Cert h ns m i t o a))%Z.
-Definition get_state : dec state :=
-  (c <- get_list (get_pair get_str get_cert) ;;
-   i <- get_list (get_pair get_str (get_list get_str)) ;; ret (St c i))%Z.
 Definition get_attr : dec attr :=
   (s <- get_bool ;; v <- get_bool ;; c <- get_bool ;; ret (Attr s v c))%Z.
 Definition get_obs : dec obs :=
@@ -114,20 +183,34 @@ Definition get_obs : dec obs :=
    else (fun _ => None))%Z.
 Definition get_tbls : dec (list (N * N) * list N) :=
   (lt <- get_list (get_pair get_n get_n) ;; st <- get_list get_n ;; ret (lt, st))%Z.
+Definition get_policy : dec policy :=
+  (t <- get_z ;;
+   if t =? 0 then ret PDefault else if t =? 1 then ret PMin else if t =? 2 then ret PMax
+   else if t =? 3 then ret PGoodMin else if t =? 4 then ret PRefuse else (fun _ => None))%Z.
+(** a storage entry: the name it is stored under, the certificate, fresh?, complete? *)
+Definition get_stored : dec (str * stored * (str * bool)) :=
+  (n <- get_str ;; c <- get_cert ;; f <- get_bool ;; k <- get_bool ;;
+   ret (n, Stored c f, (c_hash c, k)))%Z.
 Definition get_case : dec case :=
   (k <- get_z ;;
    if k =? 0 then
      t <- get_tbls ;;
      cap <- get_nat ;; s <- get_state ;; at_ <- get_list (get_pair get_str get_attr) ;;
      d <- get_str ;; f <- get_str ;; sni <- get_str ;; ip <- get_str ;;
-     ne <- get_bool ;; q <- get_bool ;; ld <- get_opt get_cert ;; lc <- get_bool ;;
-     o <- get_obs ;;
-     ret (KLookup (fst t) (snd t) (LCase cap s at_ (Config d f) sni ip (Env ne q ld) lc o))
+     pol <- get_policy ;; idna <- get_opt get_str ;; st <- get_list get_stored ;;
+     v <- get_opt get_str ;; o <- get_obs ;; post <- get_state ;;
+     ret (KLookup (fst t) (snd t)
+            (LCase cap s at_ (Config d f) sni ip pol (EnvX idna (map fst st) v) (map snd st) o post))
    else if k =? 1 then
      lt <- get_list (get_pair get_n get_n) ;; a <- get_str ;; b <- get_str ;; o <- get_bool ;;
      ret (KMatch lt a b o)
    else if k =? 2 then
      t <- get_tbls ;; s <- get_str ;; o <- get_str ;; ret (KNorm (fst t) (snd t) s o)
+   else if k =? 3 then
+     st <- get_list get_n ;; s <- get_str ;; o <- get_bool ;; ret (KQual st s o)
+   else if k =? 4 then
+     t <- get_tbls ;; d <- get_str ;; ip <- get_str ;; i <- get_opt get_str ;; o <- get_opt get_str ;;
+     ret (KName (fst t) (snd t) d ip i o)
    else (fun _ => None))%Z.
 
 Definition check_case (k : case) : Z :=
@@ -135,16 +218,23 @@ Definition check_case (k : case) : Z :=
   | KLookup lt st c =>
       let lower := tbl_lower lt in
       let is_space := tbl_space st in
-      code (result_eqb (run_lookup lower is_space c) (l_obs c))
-           (spec_lookup lower is_space c &&
-            match l_obs c, loaded (l_env c) with      (* oracle: what was loaded is complete *)
-            | OCert h _, Some lc => negb (str_eqb (c_hash lc) h) || l_loaded_complete c
-            | _, _ => true end)
+      let (r, post) := run_lookup lower is_space c in
+      code (result_eqb r (l_obs c) && state_eqb post (l_post c))
+           (spec_lookup lower is_space c && spec_cache c)
   | KMatch lt a b o =>
       let lower := tbl_lower lt in
       code (Bool.eqb (match_wildcard lower a b) o) (spec_match lower a b o)
   | KNorm lt st s o =>
       code (str_eqb (normalize (tbl_lower lt) (tbl_space st) s) o) true
+  | KQual st s o =>
+      code (Bool.eqb (subject_qualifies (tbl_space st) s) o) (Bool.eqb (qual_spec (tbl_space st) s) o)
+  | KName lt st d ip i o =>
+      (* getNameFromClientHello: the IDNA form computed by the harness with x/net/idna, else the
+         normalised default name, else the local IP; an IDNA error is an error *)
+      let m := hello_name (tbl_lower lt) (tbl_space st) (Config d []) ip i in
+      let eq := match m, o with
+                | None, None => true | Some a, Some b => str_eqb a b | _, _ => false end in
+      code eq eq
   end.
 
 Definition check_line (l : list Z) : Z :=
@@ -157,11 +247,20 @@ Definition check_line (l : list Z) : Z :=
 Definition explain_line (l : list Z) : list Z :=
   match decode get_case l with
   | Some (KLookup lt st c) =>
-      match run_lookup (tbl_lower lt) (tbl_space st) c with
-      | RErr => [0%Z]
-      | ROk x => 1%Z :: put_str (c_hash x)
-      end
+      (match fst (run_lookup (tbl_lower lt) (tbl_space st) c) with
+       | RErr => [0%Z]
+       | ROk x => 1%Z :: put_str (c_hash x)
+       end) ++
+      [(-1)%Z; if state_eqb (snd (run_lookup (tbl_lower lt) (tbl_space st) c)) (l_post c) then 0%Z else 1%Z;
+       if spec_lookup (tbl_lower lt) (tbl_space st) c then 0%Z else 2%Z;
+       if spec_cache c then 0%Z else 2%Z;
+       Z.of_nat (length (cache (snd (run_lookup (tbl_lower lt) (tbl_space st) c))))]
   | Some (KMatch lt a b o) => [if match_wildcard (tbl_lower lt) a b then 1%Z else 0%Z]
   | Some (KNorm lt st s o) => put_str (normalize (tbl_lower lt) (tbl_space st) s)
+  | Some (KName lt st d ip i o) =>
+      match hello_name (tbl_lower lt) (tbl_space st) (Config d []) ip i with
+      | Some a => 1%Z :: put_str a | None => [0%Z] end
+  | Some (KQual st s o) => [if subject_qualifies (tbl_space st) s then 1%Z else 0%Z;
+                            if qual_spec (tbl_space st) s then 1%Z else 0%Z]
   | None => []
   end.
